@@ -125,7 +125,9 @@ class Decorator:
             N[i - 1]['body'] = self.block(b, fn, scope)
             if self.peek() == 'except':
                 self.take()
-                N[i - 1]['handlers'] = [dict(cls=1 if r.random() < 0.85 else 2, body=self.block(b, fn, scope))]
+                hname = r.choice(['', '', 'ex', r.choice(self.names)])
+                N[i - 1]['handlers'] = [dict(cls=1 if r.random() < 0.85 else 2, name=hname,
+                                             body=self.block(b, fn, scope + (['ex'] if hname == 'ex' else [])))]
             if self.peek() == 'finally':
                 self.take()
                 N[i - 1]['final'] = self.block(b, fn, scope)
